@@ -90,7 +90,7 @@ def main(ctx):
     extra = ["-big", "-fsync"]
     trace, stats, out = chainlib.run_histories(ctx, quick, extra_args=extra, sched=sched)
     if stats is None:
-        raise vlib.CheckError("driver failed:\n" + out[-3000:])
+        vlib.driver_failure(ctx, out)
     ok, info = chainlib.validate(ctx, trace, "Trace_Replicas.tla", "Trace_Replicas.cfg", MINE, "C01", describe)
 
     # order-sensitive epoch-loop configurations: EpochLoop.tla (canonical order: Confluent holds) exports every delegation
@@ -111,7 +111,7 @@ def main(ctx):
     gtrace = ctx.path("graphs.ndjson")
     p = vlib.run_driver(ctx, drv, ["-out", gtrace, "-blocks", "120", "-graphs", gfile], timeout=3000)
     if p.returncode != 0:
-        raise vlib.CheckError("driver failed on the delegation-graph scenarios:\n" + (p.stdout or "")[-2000:])
+        vlib.driver_failure(ctx, p.stdout, "driver failed on the delegation-graph scenarios")
     grows = vlib.read_ndjson(gtrace)
     epochs_g = sum(1 for x in grows if x.get("ev") == "Block" and x.get("flags", 0) & 32)
     if epochs_g == 0:
